@@ -169,8 +169,14 @@ func (p *provider) CreateScope(ctx context.Context) (Scope, error) {
 		return nil, err
 	}
 
-	// Track scope
+	// Track scope. The table is nil once the provider has been closed: a
+	// creation that overlaps the Close reports the disposed error.
 	p.scopesMu.Lock()
+	if p.scopes == nil {
+		p.scopesMu.Unlock()
+		_ = s.Close()
+		return nil, ErrProviderDisposed
+	}
 	p.scopes[s] = struct{}{}
 	p.scopesMu.Unlock()
 
@@ -227,7 +233,8 @@ func (p *provider) Close() error {
 			errors = append(errors, fmt.Errorf("root scope: %w", err))
 		}
 
-		p.rootScope = nil
+		// rootScope is kept: calls that overlap Close read it without
+		// synchronisation and get the disposed error from the closed scope
 	}
 
 	// Dispose all singleton disposables
